@@ -16,6 +16,7 @@ type UnitResult struct {
 	Aborted  string
 	Paths    int
 	Contract *FuncContract
+	AnteCov  []*Obligation
 }
 
 // findBoxed: locals whose address is taken, or that are assigned inside a
@@ -203,6 +204,10 @@ func (e *Engine) verifyUnit(u *FuncUnit) *UnitResult {
 	for _, o := range res.Obls {
 		o.SMTFile = buildSMT(decls, o)
 	}
+	res.AnteCov = c.anteCov
+	for _, o := range res.AnteCov {
+		o.SMTFile = buildSMT(decls, o)
+	}
 	return res
 }
 
@@ -248,6 +253,12 @@ func (c *Ctx) axiomRelevant(ax *Axiom) bool {
 }
 
 func (c *Ctx) checkPost(st *State, ct *FuncContract, vals []Val, pos token.Pos) {
+	// lock balance: nothing locked by this unit may still be held when it returns
+	for _, k := range sortedKeys(st.locks) {
+		if st.locks[k] > 0 && !(ct != nil && ct.Flags["holds-locks"]) {
+			c.addObl(st, "lock", "lock@"+k, "false", "the unit returns at "+c.position(pos)+" with "+k+" still locked (locked by this unit, not unlocked on this path)")
+		}
+	}
 	if ct == nil {
 		return
 	}
@@ -259,6 +270,14 @@ func (c *Ctx) checkPost(st *State, ct *FuncContract, vals []Val, pos token.Pos) 
 		if err != nil {
 			c.abort("ensures %d: %v", i+1, err)
 			return
+		}
+		if en.Expr.Op == "bin" && en.Expr.S == "==>" && len(en.Expr.Args) == 2 {
+			// vacuity guard: the antecedent must be reachable on some exit path, otherwise the clause says nothing
+			if at, aerr := env.trBool(en.Expr.Args[0]); aerr == nil {
+				c.anteCov = append(c.anteCov, &Obligation{Name: c.funcKey + fmt.Sprintf(".post.%d.cover", i+1), Kind: "cover",
+					Func: c.funcKey + fmt.Sprintf(" [antecedent of post.%d `%s`]", i+1, en.Expr.Args[0].String()),
+					PC:   append([]string(nil), st.pc...), Goal: not(at), Desc: "antecedent reachable (vacuity guard)", Props: en.Props})
+			}
 		}
 		nb := len(c.obls)
 		c.addObl(st, "post", fmt.Sprintf("post.%d", i+1), t, fmt.Sprintf("postcondition `%s`", en.Src))
